@@ -192,11 +192,14 @@ class _Desugar(ast.NodeTransformer):
             if isinstance(n, ast.Assign) and len(n.targets) == 1 and isinstance(n.targets[0], ast.Name):
                 exprs[n.targets[0].id] = n.value
         saved = getattr(self, "_index_locals", {})
+        saved_defs = getattr(self, "_single_defs", {})
         self._index_locals = {k: v for k, v in exprs.items() if counts.get(k) == 1 and self._positions_of(v) is not None}
+        self._single_defs = {k: v for k, v in exprs.items() if counts.get(k) == 1}
         try:
             return self.generic_visit(node)
         finally:
             self._index_locals = saved
+            self._single_defs = saved_defs
 
     @staticmethod
     def _positions_of(it):
@@ -218,7 +221,10 @@ class _Desugar(ast.NodeTransformer):
         if isinstance(it, ast.Call) and isinstance(it.func, ast.Attribute) and it.func.attr == "ndindex" and isinstance(it.func.value, ast.Name) \
                 and it.func.value.id in ("np", "numpy") and not it.keywords and isinstance(node.target, ast.Tuple) and not node.orelse \
                 and all(isinstance(e, ast.Name) for e in node.target.elts):
-            extents = list(it.args[0].elts) if len(it.args) == 1 and isinstance(it.args[0], (ast.Tuple, ast.List)) else list(it.args)
+            arg0 = it.args[0] if len(it.args) == 1 else None
+            if isinstance(arg0, ast.Name) and isinstance(getattr(self, "_single_defs", {}).get(arg0.id), (ast.Tuple, ast.List)):
+                arg0 = self._single_defs[arg0.id]       # shape = (n, m); np.ndindex(shape)
+            extents = list(arg0.elts) if isinstance(arg0, (ast.Tuple, ast.List)) else list(it.args)
             if len(extents) == len(node.target.elts) and len(extents) >= 1:
                 body = node.body
                 depth_ = len(extents)
